@@ -293,7 +293,7 @@ func (x *exec) concPass(entries []entry, lines [][]byte) {
 						}
 						n++
 						snap, res := one(e, root, lines[li])
-						if res != ref[li][j] && res != "panic" && ref[li][j] != "panic" {
+						if res != ref[li][j] && ref[li][j] != "panic" { // a panic that only happens concurrently counts
 							mu.Lock()
 							found = append(found, concMismatch{
 								sig:   fmt.Sprintf("decoder=%s concurrent-decode-differs-from-sequential entry=%s", x.fam, entryName(e.label)),
